@@ -365,8 +365,8 @@ def difference_operator_of_the_given_order(K, order, n):
 
 @contract("C14", targets=[PL + "lonf", PL + "_lonf_for_variant", PL + "_first_order_matrix_setup", PL + "_second_order_matrix_setup",
                           "irispie.series.main:Series.iter_own_data_variants_from_until", "irispie.series.main:_from_start_and_values"],
-          instances=[(1, 3, 1), (1, 4, 1), (2, 4, 1), (2, 5, 1), (1, 3, 2), (2, 4, 2)], opts={"max_paths": 600})
-def lonf_trend_is_the_l1_optimum(K, order, n, nv):
+          instances=[(1, 3, 1, 0), (1, 4, 1, 0), (2, 4, 1, 0), (2, 5, 1, 0), (1, 3, 2, 0), (2, 4, 2, 0), (1, 3, 1, 1), (2, 4, 1, 2)], opts={"max_paths": 600})
+def lonf_trend_is_the_l1_optimum(K, order, n, nv, margin):
     """lonf(x, order, smooth) for a fully observed series of n periods and nv variants: trend and gap have the span
     and the variants of the input, trend + gap is the data, and the trend satisfies the optimality conditions of
         minimise 1/2 sum (y_t - trend_t)^2 + smooth * sum |(D trend)_i|
@@ -374,12 +374,23 @@ def lonf_trend_is_the_l1_optimum(K, order, n, nv):
     v_i == smooth where (D trend)_i > 0 and v_i == -smooth where (D trend)_i < 0.  daqp.solve enters through its
     assumed contract; the witness v is the solver's answer."""
     cls = D.QuarterlyPeriod
-    start = K.int("start", 8000, 8100)
     lam = K.real("smooth", positive=True, sample=(0.2, 3))
-    data = K.array("y", (n, nv), nan=False)
-    y0 = K.snapshot(data)
-    x = K.obj(Series, start=K.obj(cls, serial=start), data=data, data_type=np.float64, metadata={}, __description__="")
-    trend, gap = K.call(L1.lonf, x, order, lam)
+    if margin:
+        # the series is longer than the filtered span by `margin` periods on each side: only the span is filtered, and
+        # the results are dated by the span, not by the series
+        s0 = K.int("start", 8000, 8100)
+        full = K.array("y", (n + 2 * margin, nv), nan=False)
+        x = K.obj(Series, start=K.obj(cls, serial=s0), data=full, data_type=np.float64, metadata={}, __description__="")
+        start = s0 + margin
+        y0 = K.snapshot(K.array_view(full, margin, 0)) if K.symbolic else full[margin:, :].copy()
+        span = K.call(D.Span, K.obj(cls, serial=start), K.obj(cls, serial=start + n - 1))
+        trend, gap = K.call(L1.lonf, x, order, lam, span=span)
+    else:
+        start = K.int("start", 8000, 8100)
+        data = K.array("y", (n, nv), nan=False)
+        y0 = K.snapshot(data)
+        x = K.obj(Series, start=K.obj(cls, serial=start), data=data, data_type=np.float64, metadata={}, __description__="")
+        trend, gap = K.call(L1.lonf, x, order, lam)
     ts, td = state(K, trend)
     gs, gd = state(K, gap)
     K.ensure("trend and gap keep the variants of the input", K.And(K.shape(td)[1] == nv, K.shape(gd)[1] == nv))
@@ -467,14 +478,16 @@ def filters_native(B):
             for j, v in cv.items():
                 cser[start + j] = v
             kw["change"] = cser
+        E = np.array(constraint_matrix(n, lev, chg), dtype=float).reshape(-1, n)
+        if E.shape[0] and np.linalg.matrix_rank(E) < E.shape[0]:
+            continue            # dependent constraints (levels at j-1 and j plus a change at j): contradictory or redundant, the problem is not well posed
         try:
             trend, gap = ir.hpf(x, **kw)
         except np.linalg.LinAlgError:
-            continue            # constraints that make the system singular (e.g. contradictory): rejected, not wrong
+            continue            # a singular system is rejected by the solver, not answered wrongly
         except Exception as ex:
             B.fail(f"hpf: exception {type(ex).__name__}: {ex}", {"n": n, "level": lev, "change": chg, "log": log})
             return
-        E = np.array(constraint_matrix(n, lev, chg), dtype=float).reshape(-1, n)
         if E.shape[0]:
             _, sv, vt = np.linalg.svd(E)
             rank = int((sv > 1e-10).sum())
